@@ -367,6 +367,60 @@ example : units (escape [34, 0xC3, 0xA9, 0xF0, 0x9F, 0x98, 0x80, 92, 110, 34]) =
 
 end Escaper
 
+/-! ## 4b. Format: the negotiated representation, rendered as documented -/
+
+section Format
+open Rivaas.Render Rivaas.RenderSpec
+
+theorem lemma_formatShape (f : String) (ans : Bytes) (code : Nat) (vtext : Bytes) (encOK : Bool) (enc : Bytes)
+    (hf : (f = "json" ∧ ans = bstr "json") ∨ (f = "html" ∧ ans = bstr "html") ∨ (f = "xml" ∧ ans = bstr "xml") ∨
+          (f = "txt" ∧ (ans = bstr "txt" ∨ ans = [])) ) :
+    formatShape f code vtext encOK enc
+      ((formatResponse ans code vtext encOK enc).map fun r => (r.1, r.2.1, r.2.2, true)) = true := by
+  rcases hf with ⟨rfl, rfl⟩ | ⟨rfl, rfl⟩ | ⟨rfl, rfl⟩ | ⟨rfl, h⟩
+  · cases encOK <;> simp [formatShape, formatResponse, bstr, jsonCType] <;> decide
+  · simp [formatShape, formatResponse, bstr]
+  · simp [formatShape, formatResponse, bstr]
+  · rcases h with rfl | rfl <;> simp [formatShape, formatResponse, bstr] <;> decide
+
+/-- **format_meets_spec.** For every Accept header string, value and status, `Format` answers with the
+    documented rendering (JSON / `<p>…</p>` / the XML document / plain text) of a representation that the
+    negotiation oracle admits for that header over json, html, xml, txt — never one the client excluded
+    with q=0, one of highest quality; plain text when nothing is acceptable. -/
+theorem format_meets_spec (pf : Accept.PF) (hpf : PFContract pf) (header : Bytes) (code : Nat) (vtext : Bytes)
+    (encOK : Bool) (enc : Bytes) :
+    formatOK (AcceptSpec.negotiationOK true header formatOffers) code vtext encOK enc
+      ((formatResponse (Accept.answer pf ⟨.accept, header, formatOffers⟩) code vtext encOK enc).map
+        fun r => (r.1, r.2.1, r.2.2, true)) = true := by
+  have hspec := negotiation_meets_spec pf hpf ⟨.accept, header, formatOffers⟩
+  have hwf := answer_wellFormed pf ⟨.accept, header, formatOffers⟩
+  simp only [beq_self_eq_true] at hspec
+  generalize Accept.answer pf ⟨.accept, header, formatOffers⟩ = ans at hspec hwf
+  have hcases : ans = [] ∨ ans = bstr "json" ∨ ans = bstr "html" ∨ ans = bstr "xml" ∨ ans = bstr "txt" := by
+    simp only [AcceptSpec.wellFormedAnswer, Bool.or_eq_true, List.isEmpty_iff, formatOffers, List.contains_eq_mem,
+      List.mem_cons, List.not_mem_nil, or_false, decide_eq_true_eq] at hwf
+    rcases hwf with h | h | h | h | h
+    · exact Or.inl h
+    · exact Or.inr (Or.inl h)
+    · exact Or.inr (Or.inr (Or.inl h))
+    · exact Or.inr (Or.inr (Or.inr (Or.inl h)))
+    · exact Or.inr (Or.inr (Or.inr (Or.inr h)))
+  unfold formatOK
+  rw [List.any_eq_true]
+  rcases hcases with rfl | rfl | rfl | rfl | rfl
+  · exact ⟨"", by simp, by rw [Bool.and_eq_true]; exact ⟨hspec, lemma_formatShape "txt" _ _ _ _ _ (by simp)⟩⟩
+  · exact ⟨"json", by simp, by rw [Bool.and_eq_true]; exact ⟨hspec, lemma_formatShape "json" _ _ _ _ _ (by simp)⟩⟩
+  · exact ⟨"html", by simp, by rw [Bool.and_eq_true]; exact ⟨hspec, lemma_formatShape "html" _ _ _ _ _ (by simp)⟩⟩
+  · exact ⟨"xml", by simp, by rw [Bool.and_eq_true]; exact ⟨hspec, lemma_formatShape "xml" _ _ _ _ _ (by simp)⟩⟩
+  · exact ⟨"txt", by simp, by rw [Bool.and_eq_true]; exact ⟨hspec, lemma_formatShape "txt" _ _ _ _ _ (by simp)⟩⟩
+
+-- non-vacuity: html is excluded, xml is the best remaining representation
+example : formatResponse (Accept.answer exPF ⟨.accept, Accept.bs "text/html;q=0, application/xml;q=0.3", formatOffers⟩)
+    201 "u".toList true "\"u\"\n".toList =
+    some (201, "application/xml".toList, "<?xml version=\"1.0\"?>\n<response>u</response>".toList) := by decide
+
+end Format
+
 /-! ## 5. Header setters never emit CR or LF -/
 
 section HeaderSetters
